@@ -20,6 +20,10 @@ func runStream(name string, args []string) {
 		streamHt(o)
 	case "http":
 		streamHTTP(o)
+	case "htl":
+		streamHtl(o)
+	case "ql":
+		streamQl(o)
 	case "reg":
 		streamReg(o)
 	case "cb":
